@@ -19,10 +19,12 @@ func zzRunes(n int) []rune {
 
 // zzScanState builds an arbitrary scanner state satisfying the invariant I
 // over src = prefix ++ suffix(symbolic, n runes).
-//   shape 0: prefix ""      offset 0 lineHead 0
-//   shape 1: prefix "a\n"   offset 2 lineHead 2
-//   shape 2: prefix "ab"    offset 2 lineHead 0
-//   shape 3: prefix "\nab"  offset 3 lineHead 1
+//
+//	shape 0: prefix ""      offset 0 lineHead 0
+//	shape 1: prefix "a\n"   offset 2 lineHead 2
+//	shape 2: prefix "ab"    offset 2 lineHead 0
+//	shape 3: prefix "\nab"  offset 3 lineHead 1
+//
 // line is symbolic (lines of an unseen earlier part of the input; the
 // translation lemma C15-P4a justifies that the scanner does not depend on it).
 func zzScanState(n int) (*Scanner, int64) {
